@@ -147,6 +147,13 @@ def handle (j : Json) : Json :=
       if p.length != f.arity then jErr "arity" else
       jObj [("val", jFloats (v.map (f.val p))), ("hval", jFloats (v.map (f.hval p))), ("der", jFloats (v.map (f.der p)))]
     | _, _, _ => jErr "bad-args"
+  | some "ptwc" =>
+    match (fStr? j "f").bind Fn.ofString, (field? j "p").bind (listOf? getCplx?), (field? j "v").bind (listOf? getCplx?) with
+    | some f, some p, some v =>
+      if p.length != f.arity then jErr "arity" else
+      if !holoFn f then jErr "not-holomorphic" else
+      jObj [("val", jCplxs (v.map (f.val p))), ("hval", jCplxs (v.map (f.hval p))), ("der", jCplxs (v.map (f.der p)))]
+    | _, _, _ => jErr "bad-args"
   | some "linq" => handleLinQ j
   | some "linc" => handleLinC j
   | some "lin" =>
